@@ -928,9 +928,13 @@ class UFArray:
 
     def __init__(self, name, family=None):
         self._uf = UF(name + "[]", family)
+        # a[(i,)] is not a[i] (mappings keyed by tuples): one-element tuple indices get their own function
+        self._uf1 = UF(name + "[(,)]", family)
 
     def __getitem__(self, idx):
         if isinstance(idx, tuple):
+            if len(idx) == 1:
+                return self._uf1(*idx)
             return self._uf(*idx)
         if isinstance(idx, slice):
             raise Unsupported("slice of UFArray")
@@ -1112,9 +1116,12 @@ class ConcreteUF:
 class ConcreteArray:
     def __init__(self, arr: UFArray, model):
         self._f = ConcreteUF(arr._uf, model)
+        self._f1 = ConcreteUF(arr._uf1, model)
 
     def __getitem__(self, idx):
         if isinstance(idx, tuple):
+            if len(idx) == 1:
+                return self._f1(*idx)
             return self._f(*idx)
         return self._f(idx)
 
